@@ -100,21 +100,24 @@ def _alarm(signum, frame):
 def guarded(f, *a):
     """lib.attempt with a time guard (a hostile quantity field can make the
     library loop for a very long time: C08's subject, not ours).  Cases the
-    library needs more than 0.4 s for are dropped and counted: the model
+    library needs more than 0.1 s for are dropped and counted: the model
     evaluated by vm_compute is some 100 times slower per element."""
     old = signal.signal(signal.SIGALRM, _alarm)
-    signal.setitimer(signal.ITIMER_REAL, 0.4)
     try:
+        signal.setitimer(signal.ITIMER_REAL, 0.1, 0.1)   # repeating: a Timeout swallowed by a __del__ is raised again
         try:
-            return ('ok', f(*a))
-        except Timeout:
-            return ('timeout',)
-        except RecursionError:
-            return ('err', C('EForeign', 'RecursionError'), '')
-        except MemoryError:
-            return ('timeout',)
-        except Exception as e:  # noqa
-            return ('err', err_term(e), str(e))
+            r = ('ok', f(*a))
+        finally:
+            signal.setitimer(signal.ITIMER_REAL, 0)     # the alarm may still fire here: caught below
+        return r
+    except Timeout:
+        return ('timeout',)
+    except RecursionError:
+        return ('err', C('EForeign', 'RecursionError'), '')
+    except MemoryError:
+        return ('timeout',)
+    except Exception as e:  # noqa
+        return ('err', err_term(e), str(e))
     finally:
         signal.setitimer(signal.ITIMER_REAL, 0)
         signal.signal(signal.SIGALRM, old)
@@ -201,11 +204,30 @@ def older_version(rng, mod):
     import copy
     m1 = copy.deepcopy(mod)
     dropped = [0]
+    used_as_default = set()      # ENUMERATED items that occur as a DEFAULT value must survive
+
+    def defaults(t):
+        k = t['k']
+        if k in ('SEQUENCE', 'SET'):
+            for m in G.all_members(t):
+                if m['opt'] not in (None, 'optional') and isinstance(m['opt'][1], str):
+                    used_as_default.add(m['opt'][1])
+                defaults(m['t'])
+        elif k == 'CHOICE':
+            for m in t['root'] + (t['ext'] or []):
+                defaults(m['t'])
+        elif k in ('SEQUENCE OF', 'SET OF'):
+            defaults(t['elem'])
+    for _, t in m1['types']:
+        defaults(t)
 
     def cut(t):
         k = t['k']
         if k in ('SEQUENCE', 'SET', 'CHOICE', 'ENUMERATED') and t.get('ext'):
             keep = rng.randrange(0, len(t['ext']))
+            if k == 'ENUMERATED':
+                while keep < len(t['ext']) and any(n in used_as_default for n, _ in t['ext'][keep:]):
+                    keep += 1
             dropped[0] += len(t['ext']) - keep
             t['ext'] = t['ext'][:keep]
         if k in ('SEQUENCE', 'SET'):
@@ -454,6 +476,21 @@ def boundary_modules(ctx, quick):
     for nm, k in (('A3', 'IA5String'), ('V3', 'VisibleString'), ('N3', 'NumericString'), ('P3', 'PrintableString')):
         types.append((nm, {'k': 'STRING', 'sk': k, 'size': {'lo': 3, 'hi': 3, 'ext': False}, 'alpha': None}))
         vals[nm] = ['123', ' 0 ']
+    # a fixed SIZE with an extension marker is not OER-visible: length determinant, values outside the root allowed
+    x3 = {'lo': 3, 'hi': 3, 'ext': True}
+    types.append(('O3x', {'k': 'OCTET STRING', 'size': x3}))
+    vals['O3x'] = [blob(rng, n) for n in (3, 0, 5, 130)]
+    types.append(('B3x', {'k': 'BIT STRING', 'size': x3, 'named': None}))
+    vals['B3x'] = [(bytes([rng.randrange(256)]), 3), (b'', 0), (bytes([rng.randrange(256), rng.randrange(256)]), 9)]
+    types.append(('A3x', {'k': 'STRING', 'sk': 'IA5String', 'size': x3, 'alpha': None}))
+    vals['A3x'] = ['abc', '', 'abcde']
+    types.append(('N3x', {'k': 'STRING', 'sk': 'NumericString', 'size': {'lo': 2, 'hi': 4, 'ext': False}, 'alpha': None}))
+    vals['N3x'] = ['12', '123', '1234']
+    types.append(('SX', {'k': 'SEQUENCE', 'root': [member('o', {'k': 'OCTET STRING', 'size': x3}),
+                                                   member('b', {'k': 'BIT STRING', 'size': x3, 'named': None}, 'optional'),
+                                                   member('s', {'k': 'STRING', 'sk': 'VisibleString', 'size': x3, 'alpha': None})],
+                         'ext': None}))
+    vals['SX'] = [{'o': b'abc', 'b': (b'\xa0', 3), 's': 'xyz'}, {'o': b'abcd', 's': ''}]
     types.append(('O0', {'k': 'OCTET STRING', 'size': {'lo': 0, 'hi': 0, 'ext': False}}))
     vals['O0'] = [b'']
     types.append(('O300', {'k': 'OCTET STRING', 'size': {'lo': 300, 'hi': 300, 'ext': False}}))
@@ -581,12 +618,35 @@ def fmt_model(r):
 
 def run_coq(ctx, cs):
     jobs = []
-    # interleave the three kinds so that shards have similar weight
+    # group the cases by environment so that every shard defines only the environments it uses
     ne, ns, nd = len(cs.enc), len(cs.spec), len(cs.dec)
-    nsh = max(1, -(-max(ne, ns, nd) // SHARD))
-    nsh = max(nsh, -(-(ne + ns + nd) // (3 * SHARD)))
-    for i in range(nsh):
-        jobs.append((i, cs.enc[i::nsh], cs.spec[i::nsh], cs.dec[i::nsh]))
+    by_env = {}
+    for kind, lst in (('enc', cs.enc), ('spec', cs.spec), ('dec', cs.dec)):
+        for c in lst:
+            by_env.setdefault(c[0], {'enc': [], 'spec': [], 'dec': []})[kind].append(c)
+    groups = []
+    for ei in sorted(by_env):
+        g = by_env[ei]
+        flat = [(k, c) for k in ('enc', 'spec', 'dec') for c in g[k]]
+        for i in range(0, len(flat), 2 * SHARD):          # a large environment (boundary layer) spans several shards
+            piece = {'enc': [], 'spec': [], 'dec': []}
+            for k, c in flat[i:i + 2 * SHARD]:
+                piece[k].append(c)
+            groups.append(piece)
+    cur = {'enc': [], 'spec': [], 'dec': []}
+    size = 0
+    for g in groups:
+        n = len(g['enc']) + len(g['spec']) + len(g['dec'])
+        if size and size + n > 2 * SHARD:
+            jobs.append((len(jobs), cur['enc'], cur['spec'], cur['dec']))
+            cur = {'enc': [], 'spec': [], 'dec': []}
+            size = 0
+        for k in cur:
+            cur[k] += g[k]
+        size += n
+    if size:
+        jobs.append((len(jobs), cur['enc'], cur['spec'], cur['dec']))
+    nsh = len(jobs)
     ctx.coq_eval('warm', O.COQ_IMPORTS, 'Eval vm_compute in 0.\n')       # builds the model once (if Props did not), serially
 
     def work(job):
@@ -636,6 +696,92 @@ def show(t):
         a = t.args[0]
         return a.hex() if isinstance(a, (bytes, bytearray)) else repr(a)[:300]
     return repr(t)
+
+
+# ---------------------------------------------------------------------------
+# REAL (WITH COMPONENTS binary32 / binary64): property test only — REAL is not in the Coq universe.
+# X.696 clause 15: a REAL restricted to the binary32 / binary64 value set is the IEEE 754 interchange
+# format, big endian, without length; any other REAL is a length determinant + the X.690 contents.
+
+def ieee754(x, ebits, mbits):
+    """Independent IEEE 754 binary interchange encoder for exactly representable x (integer arithmetic only)."""
+    import math
+    from fractions import Fraction
+    bias = (1 << (ebits - 1)) - 1
+    if x != x:
+        return None
+    sign = 1 if math.copysign(1.0, x) < 0 else 0
+    if x in (float('inf'), float('-inf')):
+        e, m = (1 << ebits) - 1, 0
+    elif x == 0:
+        e, m = 0, 0
+    else:
+        f = Fraction(abs(x))
+        ex = 0
+        while f >= 2:
+            f /= 2
+            ex += 1
+        while f < 1:
+            f *= 2
+            ex -= 1
+        if ex < 1 - bias:                      # subnormal
+            m = f * Fraction(2) ** (mbits + ex - (1 - bias))
+            e = 0
+        else:
+            m = (f - 1) * (1 << mbits)
+            e = ex + bias
+        if m.denominator != 1 or e >= (1 << ebits) - 1:
+            return None                        # not exactly representable: not a value of the type
+        m = int(m)
+    n = (sign << (ebits + mbits)) | (e << mbits) | m
+    return n.to_bytes((1 + ebits + mbits) // 8, 'big')
+
+
+REAL_SPEC = """R DEFINITIONS AUTOMATIC TAGS ::= BEGIN
+F32 ::= REAL (WITH COMPONENTS { mantissa (-16777215..16777215), base (2), exponent (-149..104) })
+F64 ::= REAL (WITH COMPONENTS { mantissa (-9007199254740991..9007199254740991), base (2), exponent (-1074..971) })
+S ::= SEQUENCE { a F32 OPTIONAL, b F64, ..., c F32 }
+END
+"""
+
+
+def pt_real(ctx):
+    import math
+    rng = ctx.rng
+    r = lib.attempt(lib.compile_string, REAL_SPEC, 'oer')
+    if r[0] != 'ok':
+        report(ctx, 'REAL WITH COMPONENTS module does not compile: %r' % (r[1:],), dict(kind='real', spec=REAL_SPEC))
+        return
+    spec = r[1]
+    vals32 = [0.0, -0.0, 1.0, -1.0, 0.5, -2.5, 2.0 ** -126, 2.0 ** -149, 2.0 ** -127, (2 - 2.0 ** -23) * 2.0 ** 127,
+              float('inf'), float('-inf'), 16777215.0, -16777215.0 * 2.0 ** 104, 3 * 2.0 ** -149]
+    vals64 = vals32 + [2.0 ** -1022, 2.0 ** -1074, (2 - 2.0 ** -52) * 2.0 ** 1023, 0.1, -1e300, 9007199254740991.0,
+                       math.pi, rng.random(), -rng.random() * 1e-310]
+    for tn, eb, mb, vals in (('F32', 8, 23, vals32), ('F64', 11, 52, vals64)):
+        for x in vals:
+            want = ieee754(x, eb, mb)
+            if want is None:
+                continue
+            got = lib.attempt(spec.encode, tn, x)
+            ctx.case(('real', tn, x.hex()), dict(kind='real', type=tn, value=x.hex(), lib=got[1].hex() if got[0] == 'ok' else repr(got[1:])))
+            ctx.count('real:' + tn)
+            if got != ('ok', want):
+                report(ctx, 'REAL %s value %s: library %s, IEEE 754 interchange format %s' % (
+                    tn, x.hex(), got[1].hex() if got[0] == 'ok' else got[1:], want.hex()),
+                    dict(kind='real', spec=REAL_SPEC, type=tn, value=x.hex(), expected=want.hex()))
+                continue
+            back = lib.attempt(spec.decode, tn, want + b'\x55')
+            if back[0] != 'ok' or back[1].hex() != x.hex():
+                report(ctx, 'REAL %s: decode(%s) = %r, expected %s' % (tn, want.hex(), back[1:], x.hex()),
+                       dict(kind='real-decode', spec=REAL_SPEC, type=tn, data=want.hex(), expected=x.hex()))
+    # inside a SEQUENCE with preamble and addition
+    v = {'a': -2.5, 'b': 0.1, 'c': 1.0}
+    want = b'\xc0' + ieee754(-2.5, 8, 23) + ieee754(0.1, 11, 52) + b'\x02\x07\x80\x04' + ieee754(1.0, 8, 23)
+    got = lib.attempt(spec.encode, 'S', v)
+    ctx.case(('real', 'S'), None)
+    if got != ('ok', want):
+        report(ctx, 'REAL members in SEQUENCE: library %s, expected %s' % (got[1].hex() if got[0] == 'ok' else got[1:], want.hex()),
+               dict(kind='real', spec=REAL_SPEC, type='S', value=repr(v), expected=want.hex()))
 
 
 # ---------------------------------------------------------------------------
@@ -728,13 +874,14 @@ def run(ctx):
         for numeric in ((False, True) if mod['name'] == 'BE' else (False,)):
             collect_module(ctx, cs, mod, text, None, 0, numeric, 'boundary', ntrunc=3 if quick else 6, nmal=1, values=vals)
     ctx.log('boundary layer done: %d evaluations' % ctx.evaluations)
-    nmods = 45 if quick else 900
+    nmods = 45 if quick else 2500
     for i in range(nmods):
         opts = G.Opts(max_depth=rng.choice([2, 3]), n_types=rng.choice([2, 4]))   # 64K lengths: boundary layer
         mod, text, gen = G.generate(rng, opts)
         numeric = rng.random() < .35
         collect_module(ctx, cs, mod, text, gen.gen_value, 2 if quick else 3, numeric, 'random',
                        ntrunc=4 if quick else 8, nmal=2 if quick else 4)
+    pt_real(ctx)
     ctx.log('library side done: %d evaluations' % ctx.evaluations)
     run_coq(ctx, cs)
     ctx.extra['open_theorems'] = open_theorems()
